@@ -118,6 +118,7 @@ func accessesOf(f *ssa.Function, tn *types.Named) []fieldAccess {
 }
 
 func runC13(c *Ctx) {
+	c.assertedFieldsHoldWhatIsAsserted()
 	c.rule("L1", "mutex-bearing structure: every field written by a concurrent entry point is written under the write lock and read under at least the read lock (helpers inherit what all callers hold)", 14)
 	c.rule("L2", "structure without a mutex: no field is written by a concurrent entry point unless its type synchronises itself", 8)
 	c.rule("L3", "an io.Writer handed to more than one log.New has a Write that mutates its sink only under an exclusive lock", 2)
